@@ -4,10 +4,10 @@ package props
 // withdrawal addresses decode to exactly the script they encode.
 
 import (
-	"github.com/ethereum/go-ethereum/core/types/goattypes"
 	"bytes"
 	"encoding/hex"
 	"fmt"
+	"github.com/ethereum/go-ethereum/core/types/goattypes"
 	"strings"
 	"testing"
 	"time"
